@@ -4,6 +4,8 @@ pub mod c02;
 pub mod c03;
 pub mod c04;
 pub mod c05;
+pub mod c08;
+pub mod c09;
 pub mod c11;
 pub mod c12;
 pub mod c13;
@@ -11,6 +13,7 @@ pub mod c14;
 pub mod common;
 pub mod c16;
 pub mod c18;
+pub mod c20;
 
 use crate::core::{Ctx, Report};
 
@@ -23,12 +26,15 @@ pub fn run(property: &str, ctx: &Ctx) -> Option<Report> {
         "C05" => c05::run_which(ctx, c05::Which::C05),
         "C06" => c05::run_which(ctx, c05::Which::C06),
         "C17" => c05::run_which(ctx, c05::Which::C17),
+        "C08" => c08::run(ctx),
+        "C09" => c09::run(ctx),
         "C11" => c11::run(ctx),
         "C12" => c12::run(ctx),
         "C13" => c13::run(ctx),
         "C14" => c14::run(ctx),
         "C16" => c16::run(ctx),
         "C18" => c18::run(ctx),
+        "C20" => c20::run(ctx),
         _ => return None,
     })
 }
